@@ -117,7 +117,12 @@ pub enum Inject {
     Auto,
     /// replay: this variant at the final state only
     AtEnd(u8),
+    /// no injection: every play-phase state (main line and turn-tree nodes) is additionally observed
+    /// after having been rebuilt through the public constructors (GameState::new, PlayPhase::new, ...)
+    Rebuild,
 }
+
+pub const VARIANT_REBUILD: u8 = 255;
 
 pub enum Source<'a> {
     Ops(&'a [(u16, u8)]),
@@ -146,13 +151,13 @@ pub struct WalkFail {
 pub fn start_states(start: &Start) -> Result<(GameState, Model), String> {
     match start {
         Start::Setup => Ok((GameState::initial(), Model::initial())),
-        Start::Pos(PosSpec { board, gold_to_move, move_number }) => {
+        Start::Pos(PosSpec { board, gold_to_move, move_number, notation }) => {
             // generator soundness: a start that is not a legal position is a harness bug (inconclusive),
             // never a finding
             if !board.within_complement() {
                 return Err(format!("harness generated a start position outside the complement: {}", board_text(board)));
             }
-            let eng = engine_from_position(board, *gold_to_move, *move_number)?;
+            let eng = engine_from_position_styled(board, *gold_to_move, *move_number, *notation)?;
             Ok((eng, Model::from_position(*board, *gold_to_move, *move_number)))
         }
     }
@@ -327,6 +332,7 @@ pub fn choose(
 }
 
 struct Expander<'o> {
+    rebuild: bool,
     opts: ExpandOpts,
     nodes: usize,
     obs: &'o mut dyn Obs,
@@ -350,6 +356,9 @@ impl<'o> Expander<'o> {
         if !is_root {
             // the root was already observed by the walker
             self.obs.on_state(&v, st).map_err(|f| (f, path.clone()))?;
+            if self.rebuild {
+                observe_forks(eng, mo, &[VARIANT_REBUILD], self.obs, st).map_err(|(f, _)| (f, path.clone()))?;
+            }
         }
         let vanr = match v.vanr() {
             Ok(l) => l.clone(),
@@ -448,6 +457,18 @@ impl<'o> Expander<'o> {
 fn fork_targets(mo: &Model, vanr: &[Action], variant: u8) -> Vec<(Board, bool)> {
     let mut out: Vec<(Board, bool)> = vec![];
     let mut k = 0usize;
+    if variant == 3 {
+        // start of turn: the positions "one step, then pass" leads to (nothing may change for the mover:
+        // the repetition rules only ever withhold turn-ending actions)
+        for a in vanr.iter() {
+            if let Some((rb, removed)) = mo.result_board(to_maction(a)) {
+                if removed.is_empty() && !out.contains(&(rb, !mo.gold_to_move)) {
+                    out.push((rb, !mo.gold_to_move));
+                }
+            }
+        }
+        return out;
+    }
     for a in vanr.iter() {
         let ma = to_maction(a);
         if !mo.ends_turn(ma) {
@@ -481,7 +502,7 @@ fn fork_targets(mo: &Model, vanr: &[Action], variant: u8) -> Vec<(Board, bool)> 
 /// starts afresh there, nothing older can recur) and never with positions of different material.
 pub fn fork_with_history(eng: &GameState, mo: &Model, extra: &[(Board, bool)]) -> Option<(GameState, Model)> {
     use arimaa_engine_step::{List, Phase, PieceBoard, PlayPhase, Zobrist};
-    if mo.setup || mo.step == 0 || mo.captured_this_turn {
+    if mo.setup || (mo.captured_this_turn && !extra.is_empty()) {
         return None;
     }
     let r = guard(|| {
@@ -489,10 +510,11 @@ pub fn fork_with_history(eng: &GameState, mo: &Model, extra: &[(Board, bool)]) -
         let side = eng.is_p1_turn_to_move();
         let step = eng.current_step();
         let prev: Vec<PieceBoard> = pp.previous_piece_boards().to_vec();
-        if prev.len() != step || step == 0 || pp.piece_trapped_this_turn() {
+        if prev.len() != step || (pp.piece_trapped_this_turn() && !extra.is_empty()) {
             return None;
         }
-        let init = Zobrist::from_piece_board(prev[0].piece_board(), side, 0);
+        let start_board = if step == 0 { eng.piece_board() } else { prev[0].piece_board() };
+        let init = Zobrist::from_piece_board(start_board, side, 0);
         let hash = Zobrist::from_piece_board(eng.piece_board(), side, step);
         let mut old: Vec<Zobrist> = pp.hash_history().iter().cloned().collect();
         old.reverse();
@@ -506,7 +528,7 @@ pub fn fork_with_history(eng: &GameState, mo: &Model, extra: &[(Board, bool)]) -
         }
         let pbs = eng.piece_board();
         let pb = PieceBoard::new(pbs.p1_pieces, pbs.elephants, pbs.camels, pbs.horses, pbs.dogs, pbs.cats, pbs.rabbits);
-        let phase = Phase::PlayPhase(PlayPhase::new(init, list, prev, pp.push_pull_state(), false));
+        let phase = Phase::PlayPhase(PlayPhase::new(init, list, prev, pp.push_pull_state(), pp.piece_trapped_this_turn()));
         Some(GameState::new(side, eng.move_number(), phase, pb, hash))
     });
     let feng = match r {
@@ -526,8 +548,21 @@ pub fn fork_with_history(eng: &GameState, mo: &Model, extra: &[(Board, bool)]) -
 }
 
 /// Observes the forks of one state. Err = (failure, variant).
-fn observe_forks(eng: &GameState, mo: &Model, variants: &[u8], obs: &mut dyn Obs, st: &mut Stats) -> Result<(), (Fail, u8)> {
-    if mo.setup || mo.step == 0 || mo.captured_this_turn {
+pub fn observe_forks(eng: &GameState, mo: &Model, variants: &[u8], obs: &mut dyn Obs, st: &mut Stats) -> Result<(), (Fail, u8)> {
+    if mo.setup {
+        return Ok(());
+    }
+    if variants == [VARIANT_REBUILD] {
+        // the rebuilt state itself is what the observer looks at: if the constructors do not preserve
+        // behaviour, the observer's own clauses say how
+        if let Some((e0, m0)) = fork_with_history(eng, mo, &[]) {
+            st.bump("rebuilt_state_observed");
+            let v = View::new(&e0, &m0, true);
+            obs.on_state(&v, st).map_err(|f| (Fail::new(&f.clause, format!("(on this state rebuilt through GameState::new / PlayPhase::new) {}", f.detail)), VARIANT_REBUILD))?;
+        }
+        return Ok(());
+    }
+    if mo.captured_this_turn {
         return Ok(());
     }
     // faithfulness of the reconstruction: with nothing injected the rebuilt state must be
@@ -556,6 +591,10 @@ fn observe_forks(eng: &GameState, mo: &Model, variants: &[u8], obs: &mut dyn Obs
         Err(_) => return Ok(()),
     };
     for &variant in variants {
+        // variant 3 belongs to the start of a turn, the others to the middle of one
+        if (variant == 3) != (mo.step == 0) {
+            continue;
+        }
         let extra = fork_targets(mo, &vanr, variant);
         if extra.is_empty() {
             continue;
@@ -603,8 +642,15 @@ pub fn walk(
         let v = View::new(&eng, &mo, false);
         obs.on_state(&v, st).map_err(|f| wf(f, &trace))?;
         mem.seen.insert(mo.board);
+        if opts.inject == Inject::Rebuild {
+            if let Err((f, variant)) = observe_forks(&eng, &mo, &[VARIANT_REBUILD], obs, st) {
+                let mut t = trace.clone();
+                t.fork = Some(variant);
+                return Err(WalkFail { fail: f, trace: t, inconclusive: false });
+            }
+        }
         if opts.inject == Inject::Auto {
-            if let Err((f, variant)) = observe_forks(&eng, &mo, &[0, 1, 2], obs, st) {
+            if let Err((f, variant)) = observe_forks(&eng, &mo, &[0, 1, 2, 3], obs, st) {
                 let mut t = trace.clone();
                 t.fork = Some(variant);
                 return Err(WalkFail { fail: Fail::new(&f.clause, format!("(on a fork of this state whose history holds the result of some turn-ending actions twice, variant {}) {}", variant, f.detail)), trace: t, inconclusive: false });
@@ -615,13 +661,16 @@ pub fn walk(
             if !mo.setup && mo.step == 0 && nodes_used < ex.max_nodes {
                 let draw = (fp_combine(aux, i as u64 ^ 0xabcdef) & 0xff) as u8;
                 if i == 0 || draw < ex.rate {
-                    let mut x = Expander { opts: ex, nodes: nodes_used, obs, aux: fp_combine(aux, i as u64) };
+                    let mut x = Expander { rebuild: opts.inject == Inject::Rebuild, opts: ex, nodes: nodes_used, obs, aux: fp_combine(aux, i as u64) };
                     let mut path = vec![];
                     let r = x.expand(&eng, &mo, 0, &mut path, st, true);
                     nodes_used = x.nodes;
                     if let Err((f, p)) = r {
                         let mut t = trace.clone();
                         t.branch = p;
+                        if f.detail.starts_with("(on this state rebuilt") {
+                            t.fork = Some(VARIANT_REBUILD);
+                        }
                         return Err(WalkFail { fail: f, trace: t, inconclusive: false });
                     }
                 }
@@ -740,7 +789,8 @@ pub fn start_json(start: &Start) -> Value {
             "gold_to_move": p.gold_to_move,
             "move_number": p.move_number,
             "pieces": board_text(&p.board),
-            "text": p.board.diagram(p.move_number, p.gold_to_move),
+            "notation": p.notation,
+            "text": p.board.diagram_styled(p.move_number, p.gold_to_move, p.notation),
         }),
     }
 }
@@ -773,6 +823,7 @@ pub fn start_from_json(v: &Value) -> Result<Start, String> {
                 board: b,
                 gold_to_move: v["gold_to_move"].as_bool().ok_or("gold_to_move")?,
                 move_number: v["move_number"].as_u64().ok_or("move_number")? as usize,
+                notation: v["notation"].as_u64().unwrap_or(0) as u8,
             }))
         }
         _ => Err("unknown start kind".into()),
